@@ -28,6 +28,7 @@ LEVEL = "exploration"
 EX = "http://ex.org/"
 A, B, P, Q = ("I", EX + "a"), ("I", EX + "b"), ("I", EX + "p"), ("I", EX + "q")
 ONE, TWO = S.lit_int(1), S.lit_int(2)
+ZERO = S.lit_int(0)  # a falsy term: a binding to it is still a binding (the empty string is left to C15: "" < 2 is an extension point, DESIGN 7)
 G1, G2 = ("I", EX + "g1"), ("I", EX + "g2")
 X, Y, Z, W, GV = ("var", "x"), ("var", "y"), ("var", "z"), ("var", "w"), ("var", "g")
 
@@ -55,7 +56,7 @@ FILTERS = [
 ]
 FILTERS_SMALL = [FILTERS[i] for i in (0, 2, 4, 7, 10)]
 BINDS = [(("+", Z, ("const", ONE)), "w"), (("coalesce", [Z, X]), "w"), (("if", ("bound", "y"), Y, ("const", A)), "w"), (("const", A), "z")]
-VALUES = [(["x"], [(A,)]), (["x"], [(A,), (B,)]), (["x", "z"], [(A, ONE), (B, None)]), (["z"], []), (["y"], [(B,), (B,)])]
+VALUES = [(["x"], [(A,)]), (["x"], [(A,), (B,)]), (["x", "z"], [(A, ONE), (B, None)]), (["z"], []), (["y"], [(B,), (B,)]), (["z"], [(ZERO,)])]
 PROJECTIONS = [["x"], ["y"], ["x", "z"], ["z"]]
 
 
@@ -118,6 +119,8 @@ BIG = [
     [(A, P, A), (A, Q, A), (A, Q, ONE), (B, Q, ONE)],
     [(A, P, B), (B, P, A), (B, P, B), (A, Q, B), (B, Q, A)],
     [(A, P, ONE), (A, Q, ONE), (B, Q, TWO), (B, P, A)],
+    [(A, Q, ZERO), (B, Q, ONE), (A, P, B), (B, P, ZERO)],
+    [(A, Q, ZERO), (A, Q, ONE), (B, Q, ZERO), (A, P, A)],
 ]
 
 
